@@ -26,10 +26,15 @@
        and class: last leaf before the newline), get_line_code(before, after).
    Deviations of the code, modelled as they are (each is named where it is modelled):
      DEV-DunderParam: _ParamMixin.get_public_name strips a leading "__" from parameter
-       names, so Name.name differs from the text at Name.line/column.                   *)
+       names, so Name.name differs from the text at Name.line/column (known finding).
+     DEV-NoFinalNewline: a buffer without final line terminator has no newline leaf and the
+       last simple_stmt collapses into its child (ranges end at the last token).
+     (A form feed at line start makes parso emit a spurious INDENT error leaf; it carries no
+      name and moves no position, so it is not modelled.)                                *)
 EXTENDS Naturals, Sequences, FiniteSets, TLC, Json
 
-CONSTANTS MaxStmts,      \* statements per buffer
+CONSTANTS TplLo, TplHi,  \* templates allowed for the first statement (partition for parallel emission)
+          MaxStmts,      \* statements per buffer
           MaxMods1,      \* layout modifications allowed in a 1-statement buffer
           MaxMods2,      \* ... in a longer buffer
           NNames,        \* size of the identifier pool used (4, or 5 = with "__a")
@@ -42,6 +47,7 @@ FS == 28  GS == 29  RS == 30  NEL == 133  LS == 8232  PS == 8233  US == 95  EQ =
 
 Last(s)  == s[Len(s)]
 Max(S)   == CHOOSE x \in S : \A y \in S : y <= x
+Min(S)   == CHOOSE x \in S : \A y \in S : x <= y
 \* TLC keeps [x \in S |-> e] lazy (e is re-evaluated at every application); SubSeq makes it an explicit tuple
 Explicit(f) == SubSeq(f, 1, Len(f))
 RECURSIVE Flat(_)
@@ -55,20 +61,21 @@ PosLeq(p, q) == p[1] < q[1] \/ (p[1] = q[1] /\ p[2] <= q[2])
 EndsLine(t, i) == t[i] = LF \/ (t[i] = CR /\ (i = Len(t) \/ t[i + 1] # LF))
 \* 0-based offsets at which a physical line starts
 LineStarts(t)  == {0} \cup {i \in 1..Len(t) : EndsLine(t, i)}
-NLines(t)      == Cardinality(LineStarts(t))
-\* start offset of line n (1-based)
-StartOf(t, n)  == CHOOSE s \in LineStarts(t) : Cardinality({x \in LineStarts(t) : x < s}) = n - 1
-EndOf(t, n)    == IF n = NLines(t) THEN Len(t) ELSE StartOf(t, n + 1)
-RefLine(t, n)  == SubSeq(t, StartOf(t, n) + 1, EndOf(t, n))       \* with its terminator
-RefLines(t)    == [n \in 1..NLines(t) |-> RefLine(t, n)]
+RECURSIVE SortedSeq(_)
+SortedSeq(S)   == IF S = {} THEN <<>> ELSE LET m == Min(S) IN <<m>> \o SortedSeq(S \ {m})
+\* the same as an increasing sequence; every operator below takes it as argument st so that it is
+\* computed once per text
+Starts(t)      == SortedSeq(LineStarts(t))
+LineEnd(t, st, n)  == IF n = Len(st) THEN Len(t) ELSE st[n + 1]
+LineLen(t, st, n)  == LineEnd(t, st, n) - st[n]                    \* with its terminator
+RefLine(t, st, n)  == SubSeq(t, st[n] + 1, LineEnd(t, st, n))      \* with its terminator
+RefLines(t, st)    == Explicit([n \in 1..Len(st) |-> RefLine(t, st, n)])
 \* (line, column) of the 0-based offset off
-RefPos(t, off) == LET before == {s \in LineStarts(t) : s <= off}
-                  IN <<Cardinality(before), off - Max(before)>>
-\* a position that exists in the text (column may be the line's length: an end position)
-ValidPos(t, p) == /\ p[1] \in 1..NLines(t)
-                  /\ p[2] <= Len(RefLine(t, p[1]))
-TextAt(t, p, n) == LET ln == RefLine(t, p[1]) IN
-                   IF p[2] + n <= Len(ln) THEN SubSeq(ln, p[2] + 1, p[2] + n) ELSE <<0>>
+RefPos(st, off)    == LET n == Max({k \in 1..Len(st) : st[k] <= off}) IN <<n, off - st[n]>>
+\* a position that exists in the text (the column may be the line's length: an end position)
+ValidPos(t, st, p) == p[1] \in 1..Len(st) /\ p[2] <= LineLen(t, st, p[1])
+TextAt(t, st, p, n) == IF p[2] + n <= LineLen(t, st, p[1])
+                       THEN SubSeq(t, st[p[1]] + p[2] + 1, st[p[1]] + p[2] + n) ELSE <<0>>
 
 \* The identifier a reported name stands for: keyword-parameter completions carry the
 \* completion symbol "=" (documented under Completion.name_with_symbols).
@@ -76,42 +83,46 @@ Ident(name) == IF name # <<>> /\ Last(name) = EQ THEN SubSeq(name, 1, Len(name) 
 
 (* The clauses of the property for one reported name r =
    [line, col, name, ds, de (<<>> or <<pos>>), lc (get_line_code())] against text t *)
-ClTextAtPos(t, r) == /\ ValidPos(t, <<r.line, r.col>>)
-                     /\ TextAt(t, <<r.line, r.col>>, Len(Ident(r.name))) = Ident(r.name)
-ClRange(t, r)     == /\ r.ds # <<>> /\ r.de # <<>>
-                     /\ ValidPos(t, r.ds[1]) /\ ValidPos(t, r.de[1])
-                     /\ PosLeq(r.ds[1], <<r.line, r.col>>)
-                     /\ PosLeq(<<r.line, r.col + Len(Ident(r.name))>>, r.de[1])
-ClLineCode(t, r)  == /\ r.line \in 1..NLines(t)
-                     /\ r.lc = RefLine(t, r.line)
-NameWhy(t, r) == (IF ClTextAtPos(t, r) THEN {} ELSE {"TextAtPos"})
-            \cup (IF ClRange(t, r) THEN {} ELSE {"RangeEncloses"})
-            \cup (IF ClLineCode(t, r) THEN {} ELSE {"LineCodeOK"})
+ClTextAtPos(t, st, r) == /\ ValidPos(t, st, <<r.line, r.col>>)
+                         /\ TextAt(t, st, <<r.line, r.col>>, Len(Ident(r.name))) = Ident(r.name)
+ClRange(t, st, r)     == /\ r.ds # <<>> /\ r.de # <<>>
+                         /\ ValidPos(t, st, r.ds[1]) /\ ValidPos(t, st, r.de[1])
+                         /\ PosLeq(r.ds[1], <<r.line, r.col>>)
+                         /\ PosLeq(<<r.line, r.col + Len(Ident(r.name))>>, r.de[1])
+ClLineCode(t, st, r)  == /\ r.line \in 1..Len(st)
+                         /\ r.lc = RefLine(t, st, r.line)
+NameWhy(t, st, r) == (IF ClTextAtPos(t, st, r) THEN {} ELSE {"TextAtPos"})
+                \cup (IF ClRange(t, st, r) THEN {} ELSE {"RangeEncloses"})
+                \cup (IF ClLineCode(t, st, r) THEN {} ELSE {"LineCodeOK"})
 
 (* get_names(all_scopes, definitions, references) = got, a sequence of [line, col, isdef];
-   toks = the identifier tokens in text order [line, col, binds]                        *)
-ClBijection(toks, got) == /\ Len(got) = Len(toks)
-                          /\ \A i \in 1..Len(toks) : got[i].line = toks[i].line /\ got[i].col = toks[i].col
-ClIsDef(toks, got)     == \A i \in 1..Len(got) :
-                            \A j \in 1..Len(toks) :
-                              (toks[j].line = got[i].line /\ toks[j].col = got[i].col) => got[i].isdef = toks[j].binds
+   toks = the identifier tokens [line, col, binds] (distinct positions).  "Each token exactly
+   once": as many reports as tokens and the same set of positions; the order of the list is not
+   part of the property.                                                                 *)
+PosSet(rs)             == {<<rs[i].line, rs[i].col>> : i \in 1..Len(rs)}
+ClBijection(toks, got) == Len(got) = Len(toks) /\ PosSet(got) = PosSet(toks)
+ClIsDef(toks, got)     == LET ts == {<<toks[i].line, toks[i].col, toks[i].binds>> : i \in 1..Len(toks)}
+                              tp == PosSet(toks)
+                          IN \A i \in 1..Len(got) :
+                               <<got[i].line, got[i].col>> \in tp => <<got[i].line, got[i].col, got[i].isdef>> \in ts
 
 ---------------------------------------------------------------------------
 (* DESIGN, text level: parso.utils.split_lines(code, keepends=True) *)
-PyBreak(c)     == c \in {LF, CR, VT, FF, FS, GS, RS, NEL, LS, PS}       \* str.splitlines
-NonLineBreak(c) == c \in {VT, FF, FS, GS, RS, NEL, LS, PS}             \* _NON_LINE_BREAKS
-RECURSIVE PySplit(_, _, _)
-PySplit(t, i, cur) ==
-  IF i > Len(t) THEN (IF cur = <<>> THEN <<>> ELSE <<cur>>)
-  ELSE IF t[i] = CR /\ i < Len(t) /\ t[i + 1] = LF THEN <<cur \o <<CR, LF>>>> \o PySplit(t, i + 2, <<>>)
-  ELSE IF PyBreak(t[i]) THEN <<Append(cur, t[i])>> \o PySplit(t, i + 1, <<>>)
-  ELSE PySplit(t, i + 1, Append(cur, t[i]))
+PyBreak(c)      == c \in {LF, CR, VT, FF, FS, GS, RS, NEL, LS, PS}      \* str.splitlines
+NonLineBreak(c) == c \in {VT, FF, FS, GS, RS, NEL, LS, PS}              \* _NON_LINE_BREAKS
+\* lst = string.splitlines(True): a line ends after every break character, \r\n counted once
+PyEnds(t) == {i \in 1..Len(t) : PyBreak(t[i]) /\ ~(t[i] = CR /\ i < Len(t) /\ t[i + 1] = LF)}
+PySplitLines(t) ==
+  LET e == SortedSeq(PyEnds(t))  n == Len(e)
+      full == Explicit([k \in 1..n |-> SubSeq(t, (IF k = 1 THEN 0 ELSE e[k - 1]) + 1, e[k])])
+  IN IF n = 0 THEN (IF t = <<>> THEN <<>> ELSE <<t>>)
+     ELSE IF e[n] < Len(t) THEN Append(full, SubSeq(t, e[n] + 1, Len(t))) ELSE full
 \* "for index in reversed(merge): lst[index] += lst[index + 1]; del lst[index + 1]" (IndexError passes)
 RECURSIVE Merge(_)
 Merge(lst) == IF Len(lst) <= 1 THEN lst
               ELSE LET rest == Merge(Tail(lst))  h == Head(lst)
                    IN IF NonLineBreak(Last(h)) THEN <<h \o Head(rest)>> \o Tail(rest) ELSE <<h>> \o rest
-DSplitLines(t) == LET l == Merge(PySplit(t, 1, <<>>))
+DSplitLines(t) == LET l == Merge(PySplitLines(t))
                   IN IF t = <<>> \/ Last(t) = LF \/ Last(t) = CR THEN Append(l, <<>>) ELSE l
 \* tokenizer: start_pos = (index of the line, index in the line)
 RECURSIVE DLocate(_, _, _)
@@ -380,6 +391,8 @@ Analyse(T) ==
             inside == IF d = <<>> THEN {} ELSE {x \in 1..Len(ls) : IsPrefix(d[1], ls[x].path)}
         IN [k |-> l.k, s |-> l.s, slot |-> l.slot, role |-> l.role, ind |-> l.ind, gc |-> l.gc,
             anc |-> IF l.k = "id" THEN Anc(T, p) ELSE <<>>,
+            \* index in anc of the simple_stmt holding the statement's final newline leaf (0: not below it)
+            ssk |-> LET q == Parent(ls[Len(ls)].path) IN IF IsPrefix(q, p) /\ Len(p) > Len(q) THEN Len(p) - Len(q) ELSE 0,
             isdef |-> d # <<>>,
             dfirst |-> IF d = <<>> THEN 0 ELSE CHOOSE x \in inside : \A y \in inside : x <= y,
             dlast  |-> IF d = <<>> THEN 0 ELSE Max(inside),
@@ -456,18 +469,17 @@ LeafText(st, fin, i, j) ==
 
 \* all leaves of the buffer as <<i, j>>
 AllLeaves(st) == Flat([i \in 1..Len(st) |-> Explicit([j \in 1..Len(Tpl[st[i].tpl]) |-> <<i, j>>])])
-RECURSIVE LayFrom(_, _, _, _, _, _, _)
-LayFrom(st, md, tb, fin, ls, text, offs) ==
-  IF ls = <<>> THEN [text |-> text, offs |-> offs]
+RECURSIVE LayFrom(_, _, _, _, _, _, _, _)
+LayFrom(st, md, tb, fin, ls, text, offs, lens) ==
+  IF ls = <<>> THEN [text |-> text, offs |-> offs, lens |-> lens]
   ELSE LET i == Head(ls)[1]  j == Head(ls)[2]
            pre == Prefix(st, md, tb, i, j)
            tx  == LeafText(st, fin, i, j)
-       IN LayFrom(st, md, tb, fin, Tail(ls), text \o pre \o tx, Append(offs, Len(text) + Len(pre)))
-\* [text, offs (0-based offset of every leaf, in AllLeaves order), lens]
+       IN LayFrom(st, md, tb, fin, Tail(ls), text \o pre \o tx, Append(offs, Len(text) + Len(pre)), Append(lens, Len(tx)))
+\* [text, leaves, offs (0-based offset of every leaf), lens, starts (Reference line starts of the text)]
 Layout(st, md, tb, fin) ==
-  LET ls == AllLeaves(st)  r == LayFrom(st, md, tb, fin, ls, <<>>, <<>>)
-  IN [text |-> r.text, offs |-> r.offs, leaves |-> ls,
-      lens |-> Explicit([g \in 1..Len(ls) |-> Len(LeafText(st, fin, ls[g][1], ls[g][2]))])]
+  LET ls == AllLeaves(st)  r == LayFrom(st, md, tb, fin, ls, <<>>, <<>>, <<>>)
+  IN [text |-> r.text, offs |-> r.offs, lens |-> r.lens, leaves |-> ls, starts |-> Starts(r.text)]
 
 ---------------------------------------------------------------------------
 (* DESIGN, API level: Script.get_names(all_scopes=True, definitions=True, references=True)
@@ -491,6 +503,10 @@ DesignOut(st, fin, L) ==
       spos(g) == DPos(lines, L.offs[g])
       txt(g)  == SubSeq(L.text, L.offs[g] + 1, L.offs[g] + L.lens[g])
       epos(g) == IF info(g).k = "nl" THEN DNlEndPos(spos(g), txt(g)) ELSE DEndPos(spos(g), L.lens[g])
+      \* DEV-NoFinalNewline: without a line terminator at the end of the buffer parso builds no newline
+      \* leaf, and the simple_stmt left with a single child is replaced by that child
+      absent(g) == ~fin /\ g = Len(L.leaves)
+      eofstmt(g) == ~fin /\ L.leaves[g][1] = Len(st)
       rec(g)  ==
         LET li == info(g)  p == spos(g)
             dl == base(g) + li.dlast
@@ -499,11 +515,14 @@ DesignOut(st, fin, L) ==
             ds |-> <<IF li.isdef THEN spos(base(g) + li.dfirst) ELSE p>>,
             \* get_definition_end_position: function/class -> last leaf, or the one before a newline leaf
             de |-> <<IF ~li.isdef THEN epos(g)
+                     ELSE IF absent(dl) THEN epos(dl - 1)
                      ELSE IF li.dfunc /\ info(dl).k = "nl" THEN epos(dl - 1)
                      ELSE epos(dl)>>,
             lc |-> DLineCode(lines, p[1], 0, 0),
             lc11 |-> DLineCode(lines, p[1], 1, 1),
-            role |-> li.role, anc |-> li.anc, g |-> g]
+            role |-> li.role, g |-> g,
+            anc |-> IF eofstmt(g) /\ li.ssk > 0
+                    THEN SubSeq(li.anc, 1, li.ssk - 1) \o SubSeq(li.anc, li.ssk + 1, Len(li.anc)) ELSE li.anc]
       \* get_module_names: every name leaf (module.get_used_names()), def_ref_filter lets all pass
       RECURSIVE From(_)
       From(g) == IF g > Len(L.leaves) THEN <<>>
@@ -523,11 +542,12 @@ Set(st, md, tb, fin) ==
   /\ LET L == Layout(st, md, tb, fin) IN lay' = L /\ out' = DesignOut(st, fin, L)
 
 Init == /\ stmts = <<>> /\ mods = {} /\ tabs = FALSE /\ final = TRUE
-        /\ lay = [text |-> <<>>, offs |-> <<>>, lens |-> <<>>, leaves |-> <<>>]
+        /\ lay = [text |-> <<>>, offs |-> <<>>, lens |-> <<>>, leaves |-> <<>>, starts |-> <<0>>]
         /\ out = [names |-> <<>>, lines |-> <<<<>>>>]
 Fresh(t) == [tpl |-> t, rot |-> 0, eol |-> 1, ff |-> FALSE, pre |-> "none"]
 CanMod == stmts # <<>> /\ NMods(stmts, mods, tabs, final) < Budget(stmts)
 AddStmt(t) == /\ Len(stmts) < MaxStmts /\ NMods(stmts, mods, tabs, final) = 0
+              /\ (stmts = <<>> => t \in TplLo..TplHi)
               /\ Set(Append(stmts, Fresh(t)), mods, tabs, final)
 Rotate(i, r) == /\ CanMod /\ stmts[i].rot = 0 /\ Set([stmts EXCEPT ![i].rot = r], mods, tabs, final)
 SetEol(i, e) == /\ CanMod /\ stmts[i].eol = 1 /\ Set([stmts EXCEPT ![i].eol = e], mods, tabs, final)
@@ -560,28 +580,29 @@ RefBinds(g) == LeafInfo(g).role \in Binding
 RECURSIVE RefToksFrom(_)
 RefToksFrom(g) == IF g > Len(lay.leaves) THEN <<>>
                   ELSE (IF g \in IdentLeaves
-                        THEN <<[line |-> RefPos(lay.text, lay.offs[g])[1], col |-> RefPos(lay.text, lay.offs[g])[2],
-                                binds |-> RefBinds(g), text |-> TokText(g)]>>
+                        THEN LET p == RefPos(lay.starts, lay.offs[g])
+                             IN <<[line |-> p[1], col |-> p[2], binds |-> RefBinds(g), text |-> TokText(g)]>>
                         ELSE <<>>) \o RefToksFrom(g + 1)
 RefToks == RefToksFrom(1)
 
 (* Design |= Reference *)
 KnownDunderParam(r) == LeafInfo(r.g).pname /\ Len(TokText(r.g)) >= 2 /\ TokText(r.g)[1] = US /\ TokText(r.g)[2] = US
-SplitLinesOK   == out.lines = RefLines(lay.text)
+T  == lay.text
+ST == lay.starts
+SplitLinesOK   == out.lines = RefLines(T, ST)
+NamesOK        == LET toks == RefToks IN ClBijection(toks, out.names) /\ ClIsDef(toks, out.names)
 NamesBijection == ClBijection(RefToks, out.names)
 IsDefOK        == ClIsDef(RefToks, out.names)
-PosIsRefPos    == \A i \in 1..Len(out.names) :
-                    <<out.names[i].line, out.names[i].col>> = RefPos(lay.text, lay.offs[out.names[i].g])
-TextAtPosStrict == \A i \in 1..Len(out.names) : ClTextAtPos(lay.text, out.names[i])
-TextAtPos      == \A i \in 1..Len(out.names) : KnownDunderParam(out.names[i]) \/ ClTextAtPos(lay.text, out.names[i])
-RangeEncloses  == \A i \in 1..Len(out.names) : KnownDunderParam(out.names[i]) \/ ClRange(lay.text, out.names[i])
-LineCodeOK     == \A i \in 1..Len(out.names) : ClLineCode(lay.text, out.names[i])
+TextAtPosStrict == \A i \in 1..Len(out.names) : ClTextAtPos(T, ST, out.names[i])
+TextAtPos      == \A i \in 1..Len(out.names) : KnownDunderParam(out.names[i]) \/ ClTextAtPos(T, ST, out.names[i])
+RangeEncloses  == \A i \in 1..Len(out.names) : KnownDunderParam(out.names[i]) \/ ClRange(T, ST, out.names[i])
+LineCodeOK     == \A i \in 1..Len(out.names) : ClLineCode(T, ST, out.names[i])
 \* documented meaning of before/after (not part of the property text; kept apart)
 LineCodeCtxOK  == \A i \in 1..Len(out.names) :
-                    LET r == out.names[i]  n == NLines(lay.text)
+                    LET r == out.names[i]  n == Len(ST)
                         lo == IF r.line > 1 THEN r.line - 1 ELSE 1
                         hi == IF r.line < n THEN r.line + 1 ELSE n
-                    IN r.lc11 = Flat([x \in 1..(hi - lo + 1) |-> RefLine(lay.text, lo + x - 1)])
+                    IN r.lc11 = SubSeq(T, ST[lo] + 1, LineEnd(T, ST, hi))
 
 ---------------------------------------------------------------------------
 (* emission of cases for replay *)
@@ -591,5 +612,5 @@ CaseNo == (SumSeq(lay.text) + 7 * Len(lay.text) + (IF tabs THEN 1 ELSE 0)) % 100
 Emit == (stmts # <<>> /\ CaseNo % EmitMod = EmitRem) =>
           PrintT(<<"CASE", ToJson([stmts |-> stmts, mods |-> mods, tabs |-> tabs, final |-> final,
                                    text |-> lay.text, names |-> out.names, toks |-> RefToks,
-                                   nlines |-> NLines(lay.text)])>>)
+                                   nlines |-> Len(lay.starts)])>>)
 =============================================================================
